@@ -219,9 +219,13 @@ def main():
         hbin = os.path.join(bindir, cfg["harness"] + "-" + pid)
         if os.path.exists(hbin):
             os.remove(hbin)
-        if not os.path.exists(os.path.join(HARNESS, "go.sum")) or True:
-            shutil.copy(os.path.join(REPO, "go.sum"), os.path.join(HARNESS, "go.sum"))
-        cmd = ["go", "build", "-tags", "verif"]
+        # the harness module is bound to the tree under test through a generated modfile (VERIF_REPO selects the tree)
+        modfile = os.path.join(work, "go.mod")
+        with open(modfile, "w") as f:
+            f.write("module verifharness\n\ngo 1.24.0\n\nrequire gitlab.com/aquachain/aquachain v0.0.0\n\n"
+                    f"replace gitlab.com/aquachain/aquachain => {REPO}\n")
+        shutil.copy(os.path.join(REPO, "go.sum"), os.path.join(work, "go.sum"))
+        cmd = ["go", "build", "-modfile", modfile, "-tags", "verif"]
         ov = make_overlay(cfg.get("overlay", []), work)
         if ov:
             cmd += ["-overlay", ov]
